@@ -26,6 +26,7 @@ type memConn struct {
 	writeCnt  int
 	blockAt   int // index of the Write call that blocks until close (-1: none)
 	failAt    int // index of the Write call that fails (-1: none)
+	failLen   int // number of consecutive Write calls that fail, starting at failAt (0 means 1)
 	pauseAt   int           // index of the Write call that waits for `release` and then proceeds normally (-1: none)
 	release   chan struct{} // closed by the harness to let the paused Write go on
 	delivered chan struct{} // closed when every chunk has been handed to the reader
@@ -91,7 +92,7 @@ func (c *memConn) Write(p []byte) (int, error) {
 	k := c.writeCnt
 	c.writeCnt++
 	c.mu.Unlock()
-	if k == c.failAt {
+	if c.failAt >= 0 && k >= c.failAt && k < c.failAt+max(1, c.failLen) {
 		return 0, trErr{k}
 	}
 	if k == c.pauseAt {
